@@ -37,6 +37,10 @@ def holds (reloadable : List Bool) (quiet : Bool) (t : List Ev) : Bool :=
       -- (c) nothing is lost or duplicated while running: at rest, one completed pass per accepted request
       && (!quiet ||
           rl.length == pass.length * (countP t (· == .allReturn) + countP t (· == .hup)
-                                      + countP t (fun e => match e with | .trigDelivered _ => true | _ => false)))))
+                                      + countP t (fun e => match e with | .trigDelivered _ => true | _ => false)))
+      -- (d) ... and no trigger of a ReloadSender is left untaken: at rest every send on a trigger channel has completed
+      && (!quiet ||
+          countP t (fun e => match e with | .trigIntent _ => true | _ => false)
+            == countP t (fun e => match e with | .trigDelivered _ => true | _ => false))))
 
 end GoSup.Spec.C05
